@@ -56,7 +56,7 @@ impl Cfg {
             spend_bias: *[0.1, 0.25, 0.4].choose(rng).unwrap(),
             base_offset: rng.gen_range(0..50),
             max_rewinds: rng.gen_range(0..=2),
-            avoid_f1: rng.gen_bool(0.7),
+            avoid_f1: rng.gen_bool(0.85),
             max_creates: rng.gen_range(3..9),
         }
     }
